@@ -367,6 +367,218 @@ theorem not_connected_has_route (slots : List Slot) (env : Nat → Env)
     have hm : r ∈ slotRoutes slots := by rw [← mem_order, ← lookup_routes hl]; simp
     exact ⟨r.idx, r.isLocal, r.client, mem_slotRoutes.mp hm⟩
 
+/-! ### several visitors: route cache and visitor contexts
+
+The lookup runs under the server's parent context and its answer is cached per hostname; the visitor's
+own context only reaches the dials. Consequence proved here: in ANY sequence of visits during which the
+KV content of each hostname does not change, what a visitor gets is `dialClient` of the hostname's
+slots and of the world's answers to ITS dials — independent of who visited before and of whether those
+earlier visitors' contexts were cancelled. All theorems above therefore hold visit by visit. -/
+
+theorem dialClient_eq_dialWith (slots : List Slot) (env : Nat → Env) :
+    dialClient slots env = dialWith (lookup slots) env := by
+  unfold dialClient dialWith; cases lookup slots <;> rfl
+
+/-- every cached answer is the loader's answer for the hostname's KV content -/
+def CacheOk (slotsOf : String → List Slot) (c : Cache) : Prop :=
+  ∀ h lk, cacheGet c h = some lk → lk = lookup (slotsOf h)
+
+theorem cacheOk_nil (slotsOf : String → List Slot) : CacheOk slotsOf [] := by
+  intro h lk hg; simp [cacheGet] at hg
+
+theorem cacheGet_cons (c : Cache) (h' : String) (lk : Lookup) (h : String) :
+    cacheGet ((h', lk) :: c) h = if h' = h then some lk else cacheGet c h := by
+  unfold cacheGet
+  by_cases e : h' = h <;> simp [e]
+
+/-- the cache after a visit, and whether the loader ran, depend on the hostname and the KV only —
+not on the visitor's context, not on how the world answers dials -/
+theorem lookup_ignores_visitor (c : Cache) (v : Visit) (w : Visitor) (env' : Nat → Env) :
+    (visit c { v with vis := w, env := env' }).1 = (visit c v).1
+      ∧ (visit c { v with vis := w, env := env' }).2.kvGets = (visit c v).2.kvGets := by
+  unfold visit cachedLookup
+  cases cacheGet c v.host <;> simp
+
+/-- one visit: the answer is `dialClient` on the hostname's slots, with every dial failing iff the
+visitor's context is done; the loader ran iff the hostname was not cached; the cache stays faithful -/
+theorem visit_stable (slotsOf : String → List Slot) (c : Cache) (v : Visit)
+    (hc : CacheOk slotsOf c) (hv : v.slots = slotsOf v.host) :
+    CacheOk slotsOf (visit c v).1
+      ∧ (visit c v).2.result
+          = dialClient (slotsOf v.host) (effEnv (visitorDone v.vis (cacheGet c v.host).isNone) v.env)
+      ∧ (visit c v).2.kvGets = (if (cacheGet c v.host).isNone then v.slots.length else 0) := by
+  unfold visit cachedLookup
+  cases hg : cacheGet c v.host with
+  | some lk =>
+    have := hc _ _ hg
+    refine ⟨hc, ?_, by simp⟩
+    simp only [Option.isNone_some]
+    rw [dialClient_eq_dialWith, this]
+  | none =>
+    refine ⟨?_, ?_, by simp⟩
+    · intro h lk hget
+      rw [cacheGet_cons] at hget
+      by_cases e : v.host = h
+      · rw [if_pos e] at hget; injection hget with hget; rw [← hget, hv, e]
+      · rw [if_neg e] at hget; exact hc _ _ hget
+    · simp only [Option.isNone_none]
+      rw [dialClient_eq_dialWith, hv]
+
+/-- the cache after a sequence of visits -/
+def cacheAfter (c : Cache) (ops : List Visit) : Cache := ops.foldl (fun c v => (visit c v).1) c
+
+theorem run_append_one (c : Cache) (ops : List Visit) (v : Visit) :
+    run c (ops ++ [v]) = run c ops ++ [(visit (cacheAfter c ops) v).2] := by
+  induction ops generalizing c with
+  | nil => simp [run, cacheAfter]
+  | cons a as ih => simp [run, cacheAfter, ih, List.foldl_cons]
+
+theorem cacheAfter_ok (slotsOf : String → List Slot) (ops : List Visit) (c : Cache)
+    (hc : CacheOk slotsOf c) (hst : ∀ v ∈ ops, v.slots = slotsOf v.host) :
+    CacheOk slotsOf (cacheAfter c ops) := by
+  induction ops generalizing c with
+  | nil => exact hc
+  | cons a as ih =>
+    simp only [cacheAfter, List.foldl_cons]
+    exact ih _ (visit_stable slotsOf c a hc (hst a (List.mem_cons_self ..))).1
+      (fun v hv => hst v (List.mem_cons_of_mem _ hv))
+
+/-- a hostname is cached exactly when somebody visited it before (whatever that visitor's context) -/
+theorem cached_iff_visited (ops : List Visit) (c : Cache) (h : String) :
+    (cacheGet (cacheAfter c ops) h).isSome ↔ (cacheGet c h).isSome ∨ ∃ v ∈ ops, v.host = h := by
+  induction ops generalizing c with
+  | nil => simp [cacheAfter]
+  | cons a as ih =>
+    simp only [cacheAfter, List.foldl_cons]
+    have := ih (visit c a).1
+    simp only [cacheAfter] at this
+    rw [this]
+    have h1 : (cacheGet (visit c a).1 h).isSome ↔ (cacheGet c h).isSome ∨ a.host = h := by
+      unfold visit cachedLookup
+      cases hg : cacheGet c a.host with
+      | some lk =>
+        simp only
+        constructor
+        · exact Or.inl
+        · rintro (x | rfl)
+          · exact x
+          · simp [hg]
+      | none =>
+        simp only
+        rw [cacheGet_cons]
+        by_cases e : a.host = h
+        · simp [e]
+        · simp [e]
+    rw [h1]
+    simp only [List.mem_cons, exists_eq_or_imp]
+    constructor
+    · rintro ((x | x) | x)
+      · exact Or.inl x
+      · exact Or.inr (Or.inl x)
+      · exact Or.inr (Or.inr x)
+    · rintro (x | x | x)
+      · exact Or.inl (Or.inl x)
+      · exact Or.inl (Or.inr x)
+      · exact Or.inr x
+
+/-- **visitor independence**: the `pre` visitors come first — any hostnames, any contexts (live, gone,
+cancelled during the lookup), any dial behaviour — then `v` visits. As long as the KV content of each
+hostname is the same throughout (`hst`), `v` gets exactly `dialClient` of its hostname's slots under the
+world's answers to its own dials; only `v`'s own context matters (done ⇒ its dials fail). -/
+theorem visitor_independence (slotsOf : String → List Slot) (pre : List Visit) (v : Visit)
+    (hst : ∀ x ∈ pre ++ [v], x.slots = slotsOf x.host) :
+    ∃ ran, (run [] (pre ++ [v])).getLast? =
+        some ⟨dialClient (slotsOf v.host) (effEnv (visitorDone v.vis ran) v.env),
+              if ran then v.slots.length else 0⟩
+      ∧ (ran = false ↔ ∃ x ∈ pre, x.host = v.host) := by
+  have hc : CacheOk slotsOf (cacheAfter [] pre) :=
+    cacheAfter_ok slotsOf pre [] (cacheOk_nil _) (fun x hx => hst x (List.mem_append_left _ hx))
+  have hv : v.slots = slotsOf v.host := hst v (by simp)
+  obtain ⟨-, h2, h3⟩ := visit_stable slotsOf _ v hc hv
+  refine ⟨(cacheGet (cacheAfter [] pre) v.host).isNone, ?_, ?_⟩
+  · rw [run_append_one, List.getLast?_append]
+    simp only [List.getLast?_singleton, Option.some_or]
+    congr 1
+    cases hx : (visit (cacheAfter [] pre) v).2 with
+    | mk r k => rw [hx] at h2 h3; simp only at h2 h3; rw [h2, h3]
+  · have hnil : (cacheGet ([] : Cache) v.host).isSome = false := by simp [cacheGet]
+    have := cached_iff_visited pre [] v.host
+    rw [hnil] at this
+    simp only [Bool.false_eq_true, false_or] at this
+    rw [← this]
+    cases cacheGet (cacheAfter [] pre) v.host <;> simp
+
+/-- **a live visitor is not affected by earlier visitors**: its result is the single-call `dialClient` -/
+theorem live_visitor_unaffected (slotsOf : String → List Slot) (pre : List Visit) (v : Visit)
+    (hst : ∀ x ∈ pre ++ [v], x.slots = slotsOf x.host) (hl : v.vis = .live) :
+    ((run [] (pre ++ [v])).getLast?).map (·.result) = some (dialClient (slotsOf v.host) v.env) := by
+  obtain ⟨ran, h, -⟩ := visitor_independence slotsOf pre v hst
+  have he : effEnv false v.env = v.env := by funext i; simp [effEnv]
+  rw [h, hl]
+  simp [visitorDone, he]
+
+theorem lookup_of_route {slots : List Slot} {i : Nat} {l : Bool} {c : Nat}
+    (hr : slots[i]? = some (.route l c)) : lookup slots = .routes (order (slotRoutes slots)) := by
+  have hlen : i < slots.length := by
+    rcases Nat.lt_or_ge i slots.length with h | h
+    · exact h
+    · simp [List.getElem?_eq_none h] at hr
+  have hget : slots[i]'hlen = .route l c := by
+    have := List.getElem?_eq_getElem hlen; rw [this] at hr; exact Option.some.inj hr
+  unfold lookup
+  have h1 : slots.length ≠ slots.countP (· == .empty) := by
+    intro e
+    have := (List.countP_eq_length.mp e.symm) (slots[i]'hlen) (List.getElem_mem hlen)
+    simp [hget] at this
+  have h2 : slots.length ≠ slots.countP isErrSlot := by
+    intro e
+    have := (List.countP_eq_length.mp e.symm) (slots[i]'hlen) (List.getElem_mem hlen)
+    simp [hget, isErrSlot] at this
+  simp [h1, h2]
+
+/-- single call: a hostname with a route whose client accepts stream and link is connected -/
+theorem reachable_found (slots : List Slot) (env : Nat → Env) (i : Nat) (l : Bool) (c : Nat)
+    (hr : slots[i]? = some (.route l c)) (hok : tryRoute l (env i) = .ok) :
+    ∃ k, (dialClient slots env).outcome = .found k := by
+  rw [found_iff]
+  refine ⟨_, lookup_of_route hr, ⟨i, l, c⟩, mem_order.mpr (mem_slotRoutes.mpr hr), hok⟩
+
+/-- **a cancelled visitor cannot poison the hostname**: whatever visitors came before — in particular
+visitors of the same hostname whose context was already cancelled, or was cancelled during the route
+lookup — a live visitor of a hostname that has a route with a reachable client is connected, and the
+connection goes to a published client of that hostname that accepted stream and link. -/
+theorem live_visitor_connected (slotsOf : String → List Slot) (pre : List Visit) (v : Visit)
+    (hst : ∀ x ∈ pre ++ [v], x.slots = slotsOf x.host) (hl : v.vis = .live)
+    (i : Nat) (l : Bool) (c : Nat) (hr : v.slots[i]? = some (.route l c)) (hok : tryRoute l (v.env i) = .ok) :
+    ∃ o k, (run [] (pre ++ [v])).getLast? = some o ∧ o.result.outcome = .found k
+      ∧ ∃ l' c', v.slots[k]? = some (.route l' c') ∧ tryRoute l' (v.env k) = .ok := by
+  have hv : v.slots = slotsOf v.host := hst v (by simp)
+  have h := live_visitor_unaffected slotsOf pre v hst hl
+  rw [← hv] at h
+  obtain ⟨k, hk⟩ := reachable_found v.slots v.env i l c hr hok
+  cases ho : (run [] (pre ++ [v])).getLast? with
+  | none => rw [ho] at h; simp at h
+  | some o =>
+    rw [ho] at h; simp only [Option.map_some, Option.some.injEq] at h
+    refine ⟨o, k, rfl, by rw [h]; exact hk, ?_⟩
+    exact only_published_client v.slots v.env k hk
+
+/-- a visitor whose context is done is never handed a connection (every dial on its behalf fails) … -/
+theorem done_visitor_never_connected (slots : List Slot) (env : Nat → Env) (k : Nat) :
+    (dialClient slots (effEnv true env)).outcome ≠ .found k := by
+  intro h
+  obtain ⟨l, c, -, hok⟩ := only_published_client slots _ k h
+  simp [effEnv, tryRoute, getConn] at hok
+
+/-- … and it is told not-connected exactly when the hostname has a route: its having left changes
+neither the not-found nor the lookup-failed answers -/
+theorem done_visitor_not_connected (slots : List Slot) (env : Nat → Env) (i : Nat) (l : Bool) (c : Nat)
+    (hr : slots[i]? = some (.route l c)) :
+    (dialClient slots (effEnv true env)).outcome = .notConnected := by
+  apply routes_unreachable_not_connected slots _ i l c hr
+  intro j l' c' _ hok
+  simp [effEnv, tryRoute, getConn] at hok
+
 /-! ### status frame / remote side -/
 
 /-- **wrong destination rejected**: a proxy stream whose route names another tunnel node (or carries no
@@ -415,6 +627,14 @@ example : (∀ s ∈ [Slot.lookupErr, .empty, .undecodable], isRoute s = false) 
     ∧ dialClient [.lookupErr, .empty, .undecodable] envEx = ⟨.notFound, [], []⟩ := by decide
 example : (dialClient [.route false 11, .route true 22, .lookupErr] envEx).outcome = .notConnected
     ∧ ∃ (i : Nat) (l : Bool) (c : Nat), [Slot.route false 11, .route true 22, .lookupErr][i]? = some (Slot.route l c) := ⟨by decide, 0, false, 11, rfl⟩
+-- several visitors (hypotheses of visitor_independence / live_visitor_connected hold): a visitor that is
+-- already gone, one that leaves during the lookup of another hostname, then a live one for the first hostname
+def slotsEx : String → List Slot := fun h => if h = "a" then [.route false 11, .route true 22, .route false 33] else [.empty, .lookupErr, .route true 7]
+def visitsEx : List Visit :=
+  [⟨"a", slotsEx "a", envEx, .gone⟩, ⟨"b", slotsEx "b", envEx, .leavesInLookup⟩, ⟨"b", slotsEx "b", envEx, .leavesInLookup⟩, ⟨"a", slotsEx "a", envEx, .live⟩]
+example : (∀ x ∈ visitsEx, x.slots = slotsEx x.host)
+    ∧ run [] visitsEx = [⟨⟨.notConnected, [1, 0, 2], []⟩, 3⟩, ⟨⟨.notConnected, [2], []⟩, 3⟩, ⟨⟨.found 2, [2], []⟩, 0⟩, ⟨⟨.found 2, [1, 0, 2], []⟩, 0⟩] := by
+  decide
 example : order [⟨0, false, 1⟩, ⟨1, true, 2⟩, ⟨2, true, 3⟩] = [⟨2, true, 3⟩, ⟨1, true, 2⟩, ⟨0, false, 1⟩] := by decide
 example : handleProxy (.route true 5) .conn = ⟨0, some 5, true⟩ ∧ handleProxy (.route false 5) .conn = ⟨1, none, false⟩ := by decide
 
